@@ -134,6 +134,55 @@ Proof.
 Qed.
 Print Assumptions C18_vertex_at_depth_calls.
 
+(* ON THE SURVEYED PATH: the two theorems above with [pos] instantiated by the hole's own desurvey function
+   ([pos_of dir collar s d] = the value of [desurvey dir collar s d], which is defined for every depth as soon as the table
+   has a row).  Every vertex that carries DEPTH d sits exactly where Drillhole.desurvey puts depth d, and every cell joins
+   the desurveyed positions of (depths equal to) its FROM and TO — for all collars, tables, and histories of calls. *)
+Theorem C18_vertex_on_surveyed_path :
+  forall (ang : Type) (dir : ang -> V3) collar (s : list (Q * ang)) calls,
+    s <> [] -> Forall (Forall op_ok) calls ->
+    let h := hrunc (pos_of dir collar s) empty_hole calls in
+    (forall dv i d, h_depth h = Some dv -> nth_error dv i = Some (Some d) ->
+       exists p, desurvey dir collar s d = Some p /\ nth_error (h_verts h) i = Some p)
+    /\ (forall froms tos c a b f t, h_ft h = Some (froms, tos) ->
+         nth_error (h_cells h) c = Some (a, b) -> nth_error froms c = Some f -> nth_error tos c = Some t ->
+         (exists u p, (u == f)%Q /\ desurvey dir collar s u = Some p /\ nth_error (h_verts h) a = Some p)
+         /\ (exists u p, (u == t)%Q /\ desurvey dir collar s u = Some p /\ nth_error (h_verts h) b = Some p)).
+Proof.
+  intros ang dir collar s calls Hne Hc h.
+  destruct (hrunc_inv (pos_of dir collar s) calls empty_hole (inv_empty _) Hc) as [Hv [Hj _]].
+  assert (Hpos : forall d, exists p, desurvey dir collar s d = Some p /\ pos_of dir collar s d = p).
+  { intros d. destruct (desurvey_total ang dir collar s d Hne) as [p Hp]. exists p. split; [exact Hp|].
+    unfold pos_of. rewrite Hp. reflexivity. }
+  split.
+  - intros dv i d Hd Hi. destruct (Hpos d) as [p [Hp Ep]]. exists p. split; [exact Hp|]. rewrite <- Ep. exact (Hv dv i d Hd Hi).
+  - intros froms tos c a b f t Hft Hcell Hf Ht. unfold cells_join in Hj. fold h in Hj. rewrite Hft in Hj.
+    destruct Hj as [_ [_ Hj]]. destruct (Hj c a b f t Hcell Hf Ht) as [[u [Hu Ha]] [w [Hw Hb]]].
+    destruct (Hpos u) as [p [Hp Ep]]. destruct (Hpos w) as [q [Hq Eq]].
+    split; [exists u, p|exists w, q]; (split; [assumption|split; [assumption|congruence]]).
+Qed.
+Print Assumptions C18_vertex_on_surveyed_path.
+
+(* ... combined with the leg formula: a vertex whose DEPTH d lies in leg k (depth_k < d <= depth_{k+1}) sits at
+   location_k + (d - depth_k) * deviation_k, deviation_k being the mean of the two station directions *)
+Theorem C18_vertex_in_leg :
+  forall (ang : Type) (dir : ang -> V3) collar (s : list (Q * ang)) calls dv i d k tk tk1 l v p,
+    survey_ok s -> Forall (Forall op_ok) calls ->
+    let h := hrunc (pos_of dir collar s) empty_hole calls in
+    h_depth h = Some dv -> nth_error dv i = Some (Some d) ->
+    nth_error (depths_of (augment s)) k = Some tk -> nth_error (depths_of (augment s)) (S k) = Some tk1 ->
+    (tk < d)%Q -> (d <= tk1)%Q ->
+    nth_error (legs dir (augment s)) k = Some (l, v) -> nth_error (locations dir collar s) k = Some p ->
+    nth_error (h_verts h) i = Some (vadd p (vscale (d - tk)%Q v)).
+Proof.
+  intros ang dir collar s calls dv i d k tk tk1 l v p Hok Hc h Hd Hi Hk Hk1 Hlt Hle Hleg Hloc.
+  destruct (C18_vertex_on_surveyed_path ang dir collar s calls (proj1 Hok) Hc) as [Hv _].
+  destruct (Hv dv i d Hd Hi) as [q [Hq Hn]].
+  rewrite (C18_leg_formula ang dir collar s d k tk tk1 l v p Hok Hk Hk1 Hlt Hle Hleg Hloc) in Hq.
+  inversion Hq; subst q. exact Hn.
+Qed.
+Print Assumptions C18_vertex_in_leg.
+
 (* sort_depths moves whole rows: every vertex keeps its position, its DEPTH and the value of every vertex child *)
 Theorem C18_sort_keeps_rows : forall (pos : Q -> V3) h, inv_weak pos h ->
   forall i, i < length (h_verts h) ->
@@ -186,6 +235,40 @@ Theorem C18_values_stay_attached_calls_partial :
     attached (hrunc pos (hcall pos (hrunc pos empty_hole calls) (pre ++ AddDepth name depth values tol :: post)) later) name d v tol.
 Proof. exact values_stay_attached_calls. Qed.
 Print Assumptions C18_values_stay_attached_calls_partial.
+
+(* PARTIAL, from-to data: when no two intervals of the data set collocate with the same existing cell, every value is
+   attached to a cell whose (FROM, TO) is within the tolerance of its interval, after the call and after every later call.
+   Refuted without the side condition by the oracle (open finding interval-value-lost-collision). *)
+Theorem C18_interval_values_stay_attached_partial :
+  forall (pos : Q -> V3) calls pre post name fts values tol j f t v later,
+    Forall (Forall op_ok) calls -> Forall op_ok pre ->
+    length values = length fts -> (0 < tol)%Q ->
+    no_collision_c (fold_left (happly pos) pre (hrunc pos empty_hole calls)) fts tol ->
+    nth_error fts j = Some (f, t) -> nth_error values j = Some (Some v) ->
+    cattached (hrunc pos (hcall pos (hrunc pos empty_hole calls) (pre ++ AddInterval name fts values tol :: post)) later)
+              name f t v tol.
+Proof. exact interval_values_stay_attached_calls. Qed.
+Print Assumptions C18_interval_values_stay_attached_partial.
+
+(* non-vacuity of the surveyed-path corollaries and of the interval theorem: a real table (vertical, then east), a call with
+   a depth set and a from-to set; depth 15 lies in leg 2 (10 < 15 <= 20): vertex at loc_2 + 5 * mean(down, east) *)
+Example C18_on_path_nonvacuous :
+  let s := [ (0, (0, -90)); (10, (0, -90)); (20, (90, 0)) ]%Q in
+  let collar := (1, 2, 3)%Q in
+  let calls := [ [AddDepth 0 [15; 5]%Q [Some 1; Some 2]%Q (1 # 100)%Q;
+                  AddInterval 1 [(12, 14); (2, 4)]%Q [Some 7; Some 8]%Q (1 # 100)%Q];
+                 [AddInterval 2 [(2, 4); (30, 31)]%Q [Some 9; Some 10]%Q (1 # 100)%Q] ] in
+  let h := hrunc (pos_of dir_exact collar s) empty_hole calls in
+  survey_okb s = true /\ Forall (Forall op_ok) calls
+  /\ h_depth h = Some [Some 5; Some 15; None; None; None; None; None; None]%Q
+  /\ option_eqb veqb (nth_error (h_verts h) 1) (Some (1 + 5 * (1 # 2), 2, 3 - 10 - 5 * (1 # 2))%Q) = true
+  /\ nth_error (legs dir_exact (augment s)) 2 = Some ((20 - 10)%Q, dev (dir_exact (0, -90)%Q) (dir_exact (90, 0)%Q))
+  /\ no_collision_c (hcall (pos_of dir_exact collar s) empty_hole (hd [] calls)) [(2, 4); (30, 31)]%Q (1 # 100)%Q.
+Proof.
+  split; [reflexivity|]. split; [repeat constructor; discriminate|].
+  split; [vm_compute; reflexivity|]. split; [vm_compute; reflexivity|]. split; [reflexivity|].
+  unfold no_collision_c. vm_compute. repeat constructor. intros [].
+Qed.
 
 (* non-vacuity: two depth data sets in ONE call, the first unsorted, the second sharing depths with it *)
 Example C18_multi_nonvacuous :
